@@ -4,6 +4,8 @@ import (
 	"encoding/json"
 	"fmt"
 	"math/rand"
+	"os"
+	"strconv"
 	"time"
 
 	"verif/engine/core"
@@ -96,13 +98,26 @@ func handleRandWalk(raw []byte) interface{} {
 	return res
 }
 
+// seedBase / walkLen let a diagnostic run use other seeds and lengths: VERIF_SEED_BASE, VERIF_WALK_LEN.
+func seedBase() int64 {
+	v, _ := strconv.ParseInt(os.Getenv("VERIF_SEED_BASE"), 10, 64)
+	return v
+}
+
+func walkLen(def int) int {
+	if v, err := strconv.Atoi(os.Getenv("VERIF_WALK_LEN")); err == nil && v > 0 {
+		return v
+	}
+	return def
+}
+
 func runRandWalk(ctx *core.Ctx, pool *par.Pool) {
 	ctx.SetBudget(10 * time.Minute)
 	var tasks [][]byte
 	var meta []RandWalkTask
 	for _, cfg := range []string{"A", "B", "D", "P17", "P21", "C", "E"} {
 		for s := int64(1); s <= 12000; s++ {
-			t := RandWalkTask{Type: "randwalk", Cfg: cfg, Seed: s, Len: 80}
+			t := RandWalkTask{Type: "randwalk", Cfg: cfg, Seed: seedBase() + s, Len: walkLen(80)}
 			raw, _ := json.Marshal(t)
 			tasks = append(tasks, raw)
 			meta = append(meta, t)
@@ -165,6 +180,9 @@ func minimizeDoc(raw json.RawMessage) []string {
 					return
 				}
 				env.Apply(op)
+				if !env.Dead && len(env.Viol) == 0 {
+					hookC14(env, op)
+				}
 			}
 		})
 		if !valid || env == nil {
@@ -323,7 +341,7 @@ func runQRandWalk(ctx *core.Ctx, pool *par.Pool) {
 	var meta []QRandWalkTask
 	for _, c := range []QCfgSpec{{File: "A", Buffer: 5}, {File: "C", Buffer: 5}, {File: "B", Buffer: 6}, {File: "P17", Buffer: 5}, {File: "P21", Buffer: 5}, {File: "D", Buffer: 3}, {File: "A", Buffer: 2}} {
 		for s := int64(1); s <= 3000; s++ {
-			t := QRandWalkTask{Type: "qrandwalk", Cfg: c, Seed: s, Len: 60}
+			t := QRandWalkTask{Type: "qrandwalk", Cfg: c, Seed: seedBase() + s, Len: walkLen(60)}
 			raw, _ := json.Marshal(t)
 			tasks = append(tasks, raw)
 			meta = append(meta, t)
